@@ -233,14 +233,14 @@ func c12Differential(t *testing.T, kind string, nHist int, rule string) {
 			return false
 		}
 		if kind == "redis" {
-			if node, err = redis.CreateBlockingNode(redis.New(w.shards[0].Addr())); err != nil {
+			if node, err = redis.CreateBlockingNode(redis.New(w.shards[0].Addr(), redis.WithPass(w.pass))); err != nil {
 				m.Inconclusive("CreateBlockingNode: %v", err)
 				return false
 			}
 			// configuration Type=cluster: usable only if the cluster client works against a single miniredis
 			// (decided with the RAW go-redis cluster client on B, never with the wrapper under test)
 			if e := w.ccli.Set(context.Background(), "c12-cluster-probe", "1", 0).Err(); e == nil {
-				if cnode, err = redis.CreateBlockingNode(redis.New(w.shards[0].Addr(), redis.WithCluster())); err == nil {
+				if cnode, err = redis.CreateBlockingNode(redis.New(w.shards[0].Addr(), redis.WithCluster(), redis.WithPass(w.pass))); err == nil {
 					clusterOK = true
 				}
 			} else if !clusterOK {
@@ -315,6 +315,10 @@ func c12Differential(t *testing.T, kind string, nHist int, rule string) {
 			m.Sample(map[string]any{"history": idx, "config": h.header, "commands": len(h.log), "first_ops": first,
 				"violations": h.viols, "keys_on_side_B_at_end": len(w.mrB.Keys())})
 		}
+		w.wmu.Lock()
+		st.kinds["foreign_commands_from_other_processes_ignored"] += w.foreign
+		w.foreign = 0
+		w.wmu.Unlock()
 		if h.viols > 0 {
 			// script caches / connections may be out of step after a divergence: fresh servers
 			closeW()
